@@ -48,6 +48,10 @@ def compare(a, b):
             d.append(f"{k}: returned by one run only")
         elif k in a and not (a[k].dtype == b[k].dtype and a[k].shape == b[k].shape and a[k].tobytes() == b[k].tobytes()):
             d.append(f"{k}: return values differ")
+    if not d and "sched_state" in a and "sched_state" in b and str(a["sched_state"]) != str(b["sched_state"]):
+        sa, sb = str(a["sched_state"]), str(b["sched_state"])
+        k = next((i for i in range(min(len(sa), len(sb))) if sa[i] != sb[i]), 0)
+        d.append(f"histories are equal but the scheduler/sampler/agent state the runs ended in differs (a later batch will differ): ...{sa[max(0, k - 60):k + 60]}... vs ...{sb[max(0, k - 60):k + 60]}...")
     if (a.get("error") or "") != (b.get("error") or ""):
         ea, eb = (a.get("error") or "").split(":")[0], (b.get("error") or "").split(":")[0]
         if ea != eb:
@@ -66,6 +70,8 @@ def fresh_process(cfg, calls, ctx, prelude=None):
         return None
     z = np.load(d / "out.npz", allow_pickle=False)
     r = {k: z[k] for k in z.files if k != "error"}
+    if "sched_state" in r:
+        r["sched_state"] = str(r["sched_state"])
     r["error"] = str(z["error"]) or None
     return r
 
